@@ -308,7 +308,9 @@ pub fn display_text(pv: &PV) -> Option<String> {
         PV::Kind(k) => Some(if k % 2 == 0 { "span" } else { "metric" }.to_string()),
         PV::TraceId(t) => Some(format!("{:032x}", t.parse::<u128>().unwrap_or(1).max(1))),
         PV::SpanId(s) => Some(format!("{:016x}", (*s).max(1))),
-        PV::Error(chain) => Some(chain.first().cloned().unwrap_or_default()),
+        // an error with a source renders as "top (source …)" under Display: not owned by the harness
+        PV::Error(chain) if chain.len() == 1 => Some(chain[0].clone()),
+        PV::Error(_) => None,
     }
 }
 
@@ -316,7 +318,9 @@ pub fn display_text(pv: &PV) -> Option<String> {
 /// properties: names, units, aggregations, levels and ids given as text).
 pub fn plain_text(pv: &PV) -> Option<String> {
     match pv {
-        PV::Node { node: Node::Str(s), cap: Cap::Prim | Cap::Sval | Cap::Serde } => Some(s.clone()),
+        // text captured through sval/serde renders quoted under `Display` (value-bag), which is how
+        // emit reads names and ids: outside the asserted domain
+        PV::Node { node: Node::Str(s), cap: Cap::Prim } => Some(s.clone()),
         PV::Node { cap: Cap::Display | Cap::Debug, .. } => display_text(pv),
         PV::Level(_) | PV::Kind(_) | PV::TraceId(_) | PV::SpanId(_) => display_text(pv),
         _ => None,
@@ -388,6 +392,8 @@ pub fn ref_node(n: &Node) -> RV {
 pub fn ref_value(pv: &PV) -> RV {
     match pv {
         PV::Node { node, cap: Cap::Sval | Cap::Serde | Cap::Prim } => ref_node(node),
+        // structured sinks see the top-level message of an error
+        PV::Error(chain) => RV::Str(chain.first().cloned().unwrap_or_default()),
         other => match display_text(other) {
             Some(t) => RV::Str(t),
             None => RV::Any,
